@@ -21,7 +21,7 @@ RULE = ("malformed stream: sequences of line deletions, duplications, swaps, fra
         "non-trivial = an input that raises, or a mutated input that still parses; distinct by text")
 
 FRAGS = ["[Song]", "{", "}", "[SyncTrack]", "[Events]", "[ExpertSingle]", "[Foo]", "  0 = B 0", "  0 = B 120000", "  5 = B 1", "  0 = TS 4",
-         "  0 = TS 4 63", "  0 = TS 4 7", "  8 = TS 3 9", "  0 = N 5 0", "  0 = N 7 10", "  3 = N 4 99999999", "  0 = S 2 0", "  0 = E solo", "  0 = A 99999999",
+         "  0 = TS 4 63", "  0 = TS 4 7", "  8 = TS 3 9", "  Resolution 192", "  Resolution: 480", "  Offset", "  0 = N 5 0", "  0 = N 7 10", "  3 = N 4 99999999", "  0 = S 2 0", "  0 = E solo", "  0 = A 99999999",
          '  0 = E "lyric x"', "  Resolution = 0", "  Resolution = 192", "  Player2 = foo", "", "   ", " = ", "  0 = N 6 0", "  7 = S 2 3",
          "  99999999 = B 99999999", "  0 = TS 0 0", "  1 = TS 3", "  Offset = x", "  Resolution = 1", "  2 = N 0 5", "  2 = N 5 0", "  2 = N 7 0",
          '  4 = E "section "', "[HardDrums]", "  0 = B 1", "  1 = B 0", "  Difficulty = 99999999",
@@ -146,6 +146,14 @@ def enumerated(ctx):
                         + "}\n[ExpertSingle]\n{\n" + tail + "}\n")
                 o, rend = render_all(text)
                 res.append((text, True, o, rend))
+    # a [Song] section whose only line mentioning the required field is not a field line at all (no `=`, a colon, a longer name, the bare
+    # name): the field is missing — a documented error — whatever a diagnostic would like to quote from that line
+    for bad in ("  Resolution 192", "  Resolution: 192", "  ResolutionX = 1", "  Resolution", "Resolution", "  Resolution =", "  Resolution = ", "  = 192",
+                "  Resolution == 192", "  resolution = 192", "  Resolution\t192"):
+        for extra in ("", "  Name = \"x\"\n"):
+            text = "[Song]\n{\n" + extra + bad + "\n}\n[SyncTrack]\n{\n  0 = TS 4\n  0 = B 120000\n}\n[Events]\n{\n}\n"
+            o, rend = render_all(text)
+            res.append((text, True, o, rend))
     # every signature exponent a line can write within practical bounds (the denominator is two to that power, whatever it is), on the
     # first signature and on a later one, and every small numerator
     for ex in list(range(0, 70)) + [100, 255, 256, 1000]:
